@@ -63,6 +63,11 @@ type caseIn struct {
 	// NFT: the data source's NotFound also answers true for *annotate.NoVisibleChildError
 	// (the interface leaves this open; the outcome must not depend on it)
 	NFT bool
+	// OptPat: which other options (IgnoreInconsistency, Threshold, ChildFilter, an overridden earlier
+	// IgnoreMissingChildren) surround the IgnoreMissingChildren option, and in which order (optPatterns);
+	// 0 = unset: mkCase assigns the patterns in turn so that every family sees every one.  None of them
+	// may change the outcome of Change: only the LAST IgnoreMissingChildren counts.
+	OptPat int
 	// Alias: the modify section's list of this kind IS the first K entries of the history slice
 	// of (Kind, ID) that the data source hands out (same objects, same backing array)
 	Alias *aliasSpec
@@ -70,6 +75,49 @@ type caseIn struct {
 	NilDS    bool
 	DS       []dsEntry
 	Sections [3]*sectionT // create, modify, delete; nil = section absent
+}
+
+// optPatterns: sequences of the real option constructors. M is the IgnoreMissingChildren option the
+// case asks for (absent when Ign == 0), m an EARLIER IgnoreMissingChildren with the opposite value
+// (overridden by M; for Ign == 0: true then false), I1/I0 IgnoreInconsistency(true/false),
+// T Threshold(30m), F ChildFilter(everything).
+var optPatterns = [][]string{
+	{"M"}, {"I1", "M"}, {"I0", "M"}, {"M", "I1"}, {"M", "I0"}, {"T", "M"}, {"M", "T"}, {"F", "M"}, {"M", "F"},
+	{"I1", "T", "F", "M"}, {"M", "F", "T", "I0"}, {"M", "I1", "T"}, {"m", "M"}, {"I0", "M", "I1"}, {"I1", "M", "I0"},
+	{"m", "I1", "M", "I0"}, {"I1", "I0", "M"}, {"M", "I0", "I1"},
+}
+var optRng = rand.New(rand.NewSource(20240613))
+
+func buildOpts(ign, pat int) (opts []annotate.Option, desc []string) {
+	if pat <= 0 || pat > len(optPatterns) {
+		pat = 1
+	}
+	add := func(o annotate.Option, d string) { opts = append(opts, o); desc = append(desc, d) }
+	missing := func(yes bool) {
+		add(annotate.IgnoreMissingChildren(yes), fmt.Sprintf("IgnoreMissingChildren(%v)", yes))
+	}
+	for _, tok := range optPatterns[pat-1] {
+		switch tok {
+		case "M":
+			if ign > 0 {
+				missing(ign == 2)
+			}
+		case "m":
+			if ign > 0 {
+				missing(ign != 2)
+			} else {
+				missing(true)
+				missing(false)
+			}
+		case "I1", "I0":
+			add(annotate.IgnoreInconsistency(tok == "I1"), fmt.Sprintf("IgnoreInconsistency(%v)", tok == "I1"))
+		case "T":
+			add(annotate.Threshold(30*time.Minute), "Threshold(30m)")
+		case "F":
+			add(annotate.ChildFilter(func(osm.FeatureID) bool { return true }), "ChildFilter(all)")
+		}
+	}
+	return
 }
 
 // injected error
@@ -258,10 +306,7 @@ func run(in *caseIn) obsT {
 			change.Modify.Relations = h.Relations[osm.RelationID(a.ID)][:a.K]
 		}
 	}
-	var opts []annotate.Option
-	if in.Ign > 0 {
-		opts = append(opts, annotate.IgnoreMissingChildren(in.Ign == 2))
-	}
+	opts, _ := buildOpts(in.Ign, in.OptPat)
 	var src osm.HistoryDatasourcer = d
 	if in.NilDS {
 		src = nil
@@ -360,6 +405,9 @@ func descEls(l []el) []interface{} {
 
 func mkCase(in *caseIn, mut func(*obsT)) *wire.Case {
 	c := &wire.Case{Class: "change"}
+	if in.OptPat == 0 {
+		in.OptPat = 1 + optRng.Intn(len(optPatterns))
+	}
 	c.Int(1).Bool(in.Ign == 2).Bool(in.NFT)
 	c.Len(len(in.DS))
 	var dds []interface{}
@@ -417,8 +465,10 @@ func mkCase(in *caseIn, mut func(*obsT)) *wire.Case {
 		obs = map[string]interface{}{"error_kind": []string{"", "NoVisibleChildError", "datasource error returned unchanged", "unexpected"}[o.ErrKind],
 			"error_elem_kind": o.EK, "error_id_or_code": o.EID, "error": o.ErrText}
 	}
+	_, optDesc := buildOpts(in.Ign, in.OptPat)
 	c.Desc = map[string]interface{}{"op": "annotate.Change", "option": []string{"none", "IgnoreMissingChildren(false)", "IgnoreMissingChildren(true)"}[in.Ign],
-		"datasource": dds, "notfound_accepts_typed_error": in.NFT, "modify_list_aliases_history_prefix": in.Alias, "nil_datasource": in.NilDS, "change": dsec, "observed": obs}
+		"options_in_order": optDesc,
+		"datasource":       dds, "notfound_accepts_typed_error": in.NFT, "modify_list_aliases_history_prefix": in.Alias, "nil_datasource": in.NilDS, "change": dsec, "observed": obs}
 	return c
 }
 
@@ -823,7 +873,7 @@ func main() {
 	rng := wire.Rng(a.Seed)
 	w := wire.NewWriter("C13", a.Seed, a.Tier)
 	g := &gen{rng: rng, w: w, pay: 1000}
-	w.Rule = "osmChange with 0-4 nodes/ways/relations per create/modify/delete section (sections sometimes nil), histories per element: absent, nil slice, empty, other data-source error, 1-6 entries unsorted/ascending/descending with gaps, version 0, later versions, duplicates of the new version and of each other, nothing below; option none / IgnoreMissingChildren(false) / (true); every object carries a distinct payload (changeset id). Single-element changes exercise the predecessor search alone; large cases put 16-40 elements of one kind in a section and give the data source uneven per-id latency (first elements slowest: order must not depend on it); repeated cases let the same element occur 2-4 times across/within modify and delete with increasing versions (each occurrence has its own predecessor); extreme cases use ids from {negative, 0, 2^16, 2^40, 2^44, 2^62, MaxInt64} and versions from {.., 65535, 65536, 65537, 2^31-1} with a predecessor always present; elements and history entries carry timestamps from a pool one second apart (predecessor at the same or a later instant than the element) or none; aliased cases make the modify list of one kind a prefix of the very history slice the data source returns (newest first / unsorted / sorted); repeated elements may start in the create section and have no history at all. distinct = distinct token streams; trivial = empty change. History versions are >= 0 (the domain of the property; OSM versions start at 1)."
+	w.Rule = "osmChange with 0-4 nodes/ways/relations per create/modify/delete section (sections sometimes nil), histories per element: absent, nil slice, empty, other data-source error, 1-6 entries unsorted/ascending/descending with gaps, version 0, later versions, duplicates of the new version and of each other, nothing below; option none / IgnoreMissingChildren(false) / (true), always passed through the real constructors together with the other options of the package in one of 18 orders (IgnoreInconsistency(true/false) before and/or after, Threshold, ChildFilter, an overridden earlier IgnoreMissingChildren): only the last IgnoreMissingChildren may matter; every object carries a distinct payload (changeset id). Single-element changes exercise the predecessor search alone; large cases put 16-40 elements of one kind in a section and give the data source uneven per-id latency (first elements slowest: order must not depend on it); repeated cases let the same element occur 2-4 times across/within modify and delete with increasing versions (each occurrence has its own predecessor); extreme cases use ids from {negative, 0, 2^16, 2^40, 2^44, 2^62, MaxInt64} and versions from {.., 65535, 65536, 65537, 2^31-1} with a predecessor always present; elements and history entries carry timestamps from a pool one second apart (predecessor at the same or a later instant than the element) or none; aliased cases make the modify list of one kind a prefix of the very history slice the data source returns (newest first / unsorted / sorted); repeated elements may start in the create section and have no history at all. distinct = distinct token streams; trivial = empty change. History versions are >= 0 (the domain of the property; OSM versions start at 1)."
 	nChange, nSingle, nLarge, nRepeat := 380, 340, 40, 160
 	nExtreme, nAlias := 150, 120
 	if a.Tier == "thorough" {
@@ -886,6 +936,32 @@ func main() {
 						in.Sections[si] = sec
 						c := mkCase(in, nil)
 						c.Class = "history-without-earlier-version"
+						w.Add(c)
+					}
+				}
+			}
+		}
+	}
+	{
+		// every combination and order of the options x every value of IgnoreMissingChildren x
+		// {no history, history without an earlier version, history with one} x modify/delete
+		for pat := 1; pat <= len(optPatterns); pat++ {
+			for ign := 0; ign < 3; ign++ {
+				for shape := 0; shape < 3; shape++ {
+					for si := 1; si <= 2; si++ {
+						kind := (pat + shape + si) % 3
+						in := &caseIn{Ign: ign, OptPat: pat}
+						switch shape {
+						case 1:
+							in.DS = []dsEntry{{Kind: kind, ID: 5, Hist: []el{{kind, 5, 3, true, g.nextPay()}, {kind, 5, 4, true, g.nextPay()}}}}
+						case 2:
+							in.DS = []dsEntry{{Kind: kind, ID: 5, Hist: []el{{kind, 5, 2, true, g.nextPay()}, {kind, 5, 3, true, g.nextPay()}}}}
+						}
+						sec := &sectionT{}
+						sec[kind] = []el{{kind, 5, 3, si == 1, g.nextPay()}}
+						in.Sections[si] = sec
+						c := mkCase(in, nil)
+						c.Class = "option-combinations"
 						w.Add(c)
 					}
 				}
